@@ -218,7 +218,12 @@ def processor_level(sp, case, scen_ref, col, flags):
     b = case.rebuild()
     if b.dsg is None:
         return
-    any_feasible = any(all(len(v) > 0 for v in per.values()) for _, _, per in scen_ref.values())
+    # (a scenario without any connection choice is not automatically feasible: connectors left without a choice must
+    # accept zero connections -- the reference architectures know)
+    if case.archs is not None:
+        any_feasible = len(case.archs) > 0
+    else:
+        any_feasible = any(per and all(len(v) > 0 for v in per.values()) for _, _, per in scen_ref.values())
     try:
         gp = GraphProcessor(b.dsg, encoder_type=SelChoiceEncoderType.COMPLETE)
         res = gp.get_all_discrete_x()
